@@ -352,3 +352,10 @@ Theorem c02_compact_read_never_panics : forall fuel e t b p st,
   gcread fuel e t b <> Panic p /\ cdec fuel e t st <> Panic p.
 Proof. exact (fun fuel e t b p st => conj (compact_read_no_panic fuel e t b p) (compact_reader_no_panic fuel e t st p)). Qed.
 Print Assumptions c02_compact_read_never_panics.
+
+(** the compact encoding determines the value (and is prefix-free): two well-typed wire values of a
+    type whose encodings, followed by anything, coincide are equal, and so is what follows *)
+Theorem c02_compact_encoding_injective : forall e t w1 w2 r1 r2,
+  wwt e t w1 -> wwt e t w2 -> cenc e t w1 ++ r1 = cenc e t w2 ++ r2 -> w1 = w2 /\ r1 = r2.
+Proof. exact compact_encoding_injective. Qed.
+Print Assumptions c02_compact_encoding_injective.
